@@ -524,6 +524,13 @@ Definition load (schema : schema_t) (recheck : bool) (fuel : nat) (data : json) 
   | inl data' => exec_all recheck (top_progs schema fuel data') st0
   end.
 
+(* the sequence of values main hands to process_object, read under the schema *)
+Definition spec_of (schema : schema_t) (fuel : nat) (data : json) : option (list prog) :=
+  match expand fuel (rc data) with
+  | inr _ => None
+  | inl data' => Some (top_progs schema fuel data')
+  end.
+
 (* ----------------------------------------------------- static reading of a specification *)
 
 (* ids defined by p, in registration (post-) order *)
